@@ -113,7 +113,7 @@ Fixpoint zip_pairs (names values : list str) : list (str * str) :=
 Definition get_virtual (bk : backend) (td : tdata) (r : list value) (c : column) : value :=
   let n := c_name c in
   if str_eqb n (s "peer_key") || str_eqb n (s "key") then VStr (b_key bk)
-  else if str_eqb n (s "peer_name") then VStr (b_name bk)
+  else if str_eqb n (s "peer_name") || str_eqb n (s "name") then VStr (b_name bk)
   else if str_eqb n (s "custom_variables") then
     VPairs (zip_pairs (as_strlist (match cell td r (s "custom_variable_names") with Some v => v | None => VStrList [] end))
                       (as_strlist (match cell td r (s "custom_variable_values") with Some v => v | None => VStrList [] end)))
